@@ -1860,6 +1860,12 @@ impl KyroDbService for KyroDBServiceImpl {
 
         let engine = &self.state.engine;
 
+        // Serialize with this tenant's inserts and other deletes: the ownership check, the
+        // delete and the quota decrement must be one step, or a racing insert / delete of the
+        // same doc_id makes the counted vectors drift from the live ones.
+        let quota_lock = self.tenant_quota_lock(tenant.as_ref());
+        let _quota_guard = quota_lock.as_ref().map(|lock| lock.lock());
+
         let metadata = match engine.get_metadata(global_doc_id) {
             Some(m) => m,
             None => {
@@ -2480,6 +2486,11 @@ impl KyroDbService for KyroDBServiceImpl {
         let req = request.into_inner();
 
         let engine = &self.state.engine;
+
+        // Same critical section as `delete`: selection, delete and quota decrement are one step
+        // with respect to this tenant's other writes.
+        let quota_lock = self.tenant_quota_lock(tenant.as_ref());
+        let _quota_guard = quota_lock.as_ref().map(|lock| lock.lock());
 
         let result = match req.delete_criteria {
             Some(batch_delete_request::DeleteCriteria::Ids(id_list)) => {
